@@ -766,6 +766,8 @@ def run(ctx):
     rule_error_tables(ctx)
     c01.rule_errno_unique(ctx, "error-effects")
     c02.rule_future_ownership(ctx)
+    from .common import rule_commit_structure_copy
+    rule_commit_structure_copy(ctx, "pending-offsets-owned")
     from .common import rule_instance_state
     rule_instance_state(ctx, ("aiokafka.producer.",))
     rep.nd("atomicity as seen by a read-committed reader under all fault / crash points (needs histories)")
